@@ -241,7 +241,11 @@ func RunNotifyHeldOverJoin(seed int64, netv bool, backend Backend) *DirectedResu
 		if i >= 2 {
 			break
 		}
-		res.Findings = append(res.Findings, Finding{Key: "predecessor-moved-away-from-live-node", What: r.String(), Witness: map[string]any{"trace": res.Trace, "regression": r}})
+		key := "predecessor-moved-away-from-live-node"
+		if r.Succ {
+			key = "successor-moved-away-from-live-node"
+		}
+		res.Findings = append(res.Findings, Finding{Key: key, What: r.String(), Witness: map[string]any{"trace": res.Trace, "regression": r}})
 	}
 	return res
 }
@@ -497,6 +501,92 @@ func RunRefusedLeaveDuringJoin(seed int64, netv bool) *DirectedResult {
 	live := int64(len(lab.Live()))
 	if cv := lab.WaitConverged(6*live+20, 2*time.Minute, false); !cv.Converged && !cv.Watchdog {
 		res.Findings = append(res.Findings, Finding{Key: "not-serving-after-contention:directed", What: "after the held join and the refused leave the ring did not return to serving: " + cv.Diff, Witness: map[string]any{"trace": res.Trace}})
+	}
+	return res
+}
+
+// RunStabilizeHeldOverJoin: consecutive members X, S. A periodic stabilize round of X is held after
+// it has computed its list and before it stores it; J joins between X and S (the join's advisory
+// runs a second round on X, which stores [J, S, ...]); the held round is released. X's successor
+// must still be J: a slow round must not put its older view back.
+func RunStabilizeHeldOverJoin(seed int64, netv bool) *DirectedResult {
+	res := &DirectedResult{Name: "stabilize-held-over-join", Windows: map[string]bool{}}
+	mode := Direct
+	if netv {
+		mode = NetV
+	}
+	lab := New(Options{Mode: mode, Seed: seed, MonitorPred: true, RecordEvents: true})
+	defer lab.Close()
+	rng := rand.New(rand.NewSource(seed))
+	n := 2 + rng.Intn(5)
+	ids, _, setup := buildRing(lab, rng, n, Memory)
+	if setup != "" {
+		res.Setup = setup
+		return res
+	}
+	defer lab.StopAll()
+	at := rng.Intn(n)
+	X, S := lab.Member(ids[at]), lab.Member(ids[(at+1)%n])
+	J, err := lab.Spawn(between(X.ID, S.ID, rng, lab), Memory)
+	if err != nil {
+		res.Setup = err.Error()
+		return res
+	}
+	res.logf("ring %v: X=%d S=%d J=%d", ids, X.ID, S.ID, J.ID)
+	hold := make(chan struct{})
+	var first, held atomic.Bool
+	lab.On("stab.read", func(_ string, node uint64) {
+		if node == X.ID && onStack("chord.(*LocalNode).periodic") && first.CompareAndSwap(false, true) {
+			held.Store(true)
+			select {
+			case <-hold:
+			case <-time.After(30 * time.Second):
+			}
+		}
+	})
+	if !waitUntil(held.Load, 10*time.Second) {
+		close(hold)
+		res.Setup = "no periodic stabilize round of X reached the point between computing and storing"
+		return res
+	}
+	res.Windows["a periodic round of X is held between computing and storing its list"] = true
+	var jerr error
+	for a := 0; a < 40; a++ {
+		if jerr = J.Join(S); jerr == nil || !chord.ErrorIsRetryable(jerr) {
+			break
+		}
+		time.Sleep(5 * time.Millisecond)
+	}
+	if jerr != nil {
+		close(hold)
+		res.Setup = "J could not join: " + jerr.Error()
+		return res
+	}
+	if id, ok := X.Node.VerifSuccessorID(); !ok || id != J.ID {
+		close(hold)
+		res.Setup = fmt.Sprintf("after J joined, X's successor is %d/%v, not J", id, ok)
+		return res
+	}
+	res.Windows["the join's advisory round stored J as X's successor"] = true
+	done := lab.Rounds("stab.done", X.ID)
+	close(hold)
+	waitUntil(func() bool { return lab.Rounds("stab.done", X.ID) > done }, 5*time.Second)
+	id, ok := X.Node.VerifSuccessorID()
+	res.logf("held round released; X's successor = %d/%v", id, ok)
+	if ok && id != J.ID && J.State() == chord.Active {
+		res.Findings = append(res.Findings, Finding{Key: "slow-stabilize-round-overwrote-newer-successor-list", What: fmt.Sprintf("a stabilize round of X=%d that was held between computing and storing its list put the successor %d back although J=%d had joined in between and was already X's successor", X.ID, id, J.ID),
+			Witness: map[string]any{"trace": res.Trace, "ring": ids, "X": X.ID, "S": S.ID, "J": J.ID}})
+	}
+	res.Regress = lab.PredRegressions()
+	for i, r := range res.Regress {
+		if i >= 2 {
+			break
+		}
+		key := "predecessor-moved-away-from-live-node"
+		if r.Succ {
+			key = "successor-moved-away-from-live-node"
+		}
+		res.Findings = append(res.Findings, Finding{Key: key, What: r.String(), Witness: map[string]any{"trace": res.Trace, "regression": r}})
 	}
 	return res
 }
